@@ -557,6 +557,46 @@ def rule_finite(ctx, rep, rid="R-C09-finite"):
                 r.finding(inst + "|infinity-accepted", loc_str(b.f, c.loc), "the parsed value is used without an is_finite() test: `1.0E400` is accepted and read as infinity")
 
 
+def rule_ideq(ctx, rep, rid="R-C09-ideq"):
+    """`id_eq("W")` / `dt_sep("W")` match an *Identifier* token whose text is W.  If W is not something the lexer can ever hand out as an
+    Identifier - because it does not match the Identifier pattern (`1`, `0` are Digits) - the alternative is dead: the literal form it was
+    written for (`BOOL#1`) is rejected although valid.  Every word of these helpers is matched against the lexer's own Identifier regex."""
+    from rules.c08 import parse_attr
+    r = rep.rule(rid, "every word a grammar rule expects as an identifier token (id_eq / dt_sep) is one the lexer can produce as an Identifier (it matches the Identifier pattern): "
+                      "no literal form is unreachable because its spelling lexes as another token kind", floor=20, floor_what="id_eq / dt_sep words in the grammar")
+    a = ctx.facts.astattrs.get("ironplc_parser::token::TokenType")
+    pat = None
+    for at in a["variants"].get("Identifier", {}).get("attrs", []):
+        pa = parse_attr(at)
+        if pa and pa[0] == "regex":
+            pat = pa[1]
+    if pat is None:
+        rep.error(rid, "TokenType::Identifier has no #[regex]")
+        return
+    try:
+        rx = re.compile(pat)
+    except re.error as e:
+        rep.error(rid, "cannot read the Identifier pattern %r: %s" % (pat, e))
+        return
+    g = ctx.peg
+    seen = {}
+
+    def f(e, sq, c):
+        t = g.terminal(e.prim)
+        if t and t[0] in ("id_eq", "dt_sep"):
+            seen.setdefault((t[0], t[1].strip('"')), (c, e.prim.line))
+    for rl in g.rules.values():
+        g.walk_elems(rl.expr, f, rl.name)
+    for (kind, w), (rule, line) in sorted(seen.items()):
+        inst = "%s(%r) in rule %s" % (kind, w, rule)
+        where = "parser/src/parser.rs:%d" % line
+        if rx.fullmatch(w):
+            r.ok(inst, where)
+        else:
+            r.finding("%s(%r)|not-an-identifier" % (kind, w), where, "the lexer never produces an Identifier token with the text %r (pattern %s): this alternative of rule %s can never match, "
+                      "so the form it stands for is rejected" % (w, pat, rule))
+
+
 def run(ctx, rep):
     rep.not_decided += ["that accepted literals denote the right mathematical value (base conversion, underscores, unit sums, field order) - value computation, except the scale agreement decided by R-C09-scale"]
     rep.assumptions += ["python's sre parser reads the same regex subset as regex-syntax for the two address patterns (literals, classes, groups, ?, *)",
@@ -572,6 +612,7 @@ def run(ctx, rep):
     rule_trim(ctx, rep)
     rule_wrap(ctx, rep)
     rule_finite(ctx, rep)
+    rule_ideq(ctx, rep)
     # the sign of a literal is which of the two sign tokens was written
     from rules import c01_choice
     c01_choice.run(ctx, rep, rid="R-C09-choiceid")
